@@ -84,6 +84,15 @@ Proof.
   crunchd.
 Qed.
 
+Lemma jwt_bearer_grant_disc w n now r k : nowrites k -> disciplined n k (jwt_bearer_grant w n now r).
+Proof.
+  intros NW. unfold jwt_bearer_grant, with_refresh, new_grant.
+  destruct (negb _); [exact I|].
+  eapply (disc_bind_ro _ _ _ nowrites); [apply stable_nowrites|apply jwt_bearer_client_nosave|exact NW|].
+  intros [c|] k' NW'; [|exact I].
+  crunchd.
+Qed.
+
 Lemma ciba_grant_disc w n now r k : nowrites k -> disciplined n k (ciba_grant w n now r).
 Proof.
   intros NW. unfold ciba_grant, with_refresh, new_grant.
@@ -218,7 +227,7 @@ Proof.
   - apply continue_auth_disc; auto.
   - apply push_auth_disc; auto.
   - destruct g; try exact I; (apply disciplined_bind; [|intros; exact I]).
-    + apply cc_grant_disc; auto. + apply code_grant_disc; auto. + apply refresh_grant_disc; auto. + apply ciba_grant_disc; auto.
+    + apply cc_grant_disc; auto. + apply code_grant_disc; auto. + apply refresh_grant_disc; auto. + apply jwt_bearer_grant_disc; auto. + apply ciba_grant_disc; auto.
   - apply disc_nosave, introspect_nosave.
   - apply disc_nosave, revoke_nosave.
   - apply disc_nosave, userinfo_nosave.
